@@ -15,3 +15,7 @@ func (e *Executor) DeliverMessageV(msg message.Message) []error { return e.deliv
 
 // ConfigureMessagingV installs the executor's send/ack functions into ctx exactly as initMessagingKafka does.
 func ConfigureMessagingV(ctx fbcontext.FBContext) { ctx.ConfigureMessaging(sendMessage, ackMessage) }
+
+// PrepareSourceV exposes prepareSource: the executor replaces its source by a fresh instance (new, Init, Setup), exactly
+// as superviseSource does before it restarts a failed source.
+func (e *Executor) PrepareSourceV() { e.prepareSource() }
